@@ -1063,3 +1063,44 @@ def fresh_result_rule(rule, w):
         else:
             rule.ok(key, m.where(fn, fn), "%d returning paths without a term, all infeasible" % npaths)
     return n
+
+
+def shape_dispatch_order_rule(rule, w):
+    """A coefficient is stored as a full (len(f) x len(v)) matrix, a 1 x len(v) row that is
+    repeated in every row, or a scalar that stands for a multiple of the identity.  For a variable
+    of length 1 a 1x1 coefficient satisfies the row test and the scalar test; its meaning is the
+    row one (value() broadcasts it to every row).  In every if/elif chain that dispatches on the
+    shape, the `(1, len(v))` arm therefore comes before the `_isscalar(..)` arm."""
+    m = w.mods["modeling"]
+    n = 0
+    for q, fn in m.funcs.items():
+        for st in pf._scope_nodes(fn):
+            if not isinstance(st, ast.If):
+                continue
+            par = getattr(st, "_parent", None)
+            if isinstance(par, ast.If) and len(par.orelse) == 1 and par.orelse[0] is st:
+                continue                      # not the head of its chain
+            kinds = []
+            node = st
+            while node is not None:
+                tt = " ".join(ast.unparse(node.test).split())
+                if re.search(r"\.size == \(1, len\(\w+\)\)", tt):
+                    kinds.append("row")
+                elif re.search(r"_isscalar\(", tt):
+                    kinds.append("scalar")
+                elif re.search(r"\.size == \(.*len\(\w+\)\)", tt):
+                    kinds.append("full")
+                else:
+                    kinds.append("other")
+                node = node.orelse[0] if len(node.orelse) == 1 and isinstance(node.orelse[0], ast.If) else None
+            if "row" in kinds and "scalar" in kinds:
+                n += 1
+                key = "modeling.%s:shape dispatch at line +%d tests the row shape before the scalar shape" % (q, st.lineno - fn.lineno)
+                if kinds.index("row") < kinds.index("scalar"):
+                    rule.ok(key, m.where(st, fn), " -> ".join(kinds))
+                else:
+                    rule.violation(key, m.where(st, fn),
+                                   "the scalar arm precedes the (1, len(v)) arm: for a variable of length 1 in a constraint of length > 1 the 1x1 coefficient "
+                                   "is taken for a multiple of the identity (one entry) instead of a row repeated in every row", "full -> row -> scalar",
+                                   " -> ".join(kinds))
+    return n
